@@ -1,6 +1,7 @@
 """C18 - subsequence masks and segment distances are exact."""
 import itertools
 
+import collections
 from .. import adapters as A  # noqa: F401
 from ..refmodel.graphs import lost_runs_mask
 from superrec2.utils.subsequences import subseq_complete, mask_from_subseq, subseq_from_mask, subseq_segment_dist
@@ -70,6 +71,21 @@ def check_subseq(n, mask, alphabet):
             return f"mask_from_subseq with a str on one side and a list of characters on the other differs for {chars} in {text!r}"
         if list(subseq_from_mask(mask, text)) != chars:
             return f"subseq_from_mask({bin(mask)}, {text!r}) = {subseq_from_mask(mask, text)!r}, expected {chars}"
+        # a str child against a parent whose elements are strings, some of them the concatenation of two earlier ones
+        parent2 = tuple(chr(97 + i) if i % 3 != 2 else chr(97 + i - 2) + chr(97 + i - 1) for i in range(n))
+        if not any(mask >> i & 1 for i in range(2, n, 3)):
+            child2 = "".join(parent2[i] for i in range(n) if mask >> i & 1)
+            if mask_from_subseq(child2, parent2) != mask:
+                return f"mask_from_subseq({child2!r}, {parent2}) = {bin(mask_from_subseq(child2, parent2))}, expected {bin(mask)}"
+        # sequences that can be indexed by integers but not sliced
+        dq = collections.deque(parent)
+        try:
+            got_dq = list(subseq_from_mask(mask, dq))
+            back_dq = mask_from_subseq(collections.deque(sub), dq)
+        except Exception as exc:
+            return f"deque parent, mask {bin(mask)}: raised {type(exc).__name__}: {exc}"
+        if got_dq != sub or back_dq != mask:
+            return f"deque parent, mask {bin(mask)}: subseq {got_dq} (expected {sub}), mask back {bin(back_dq)}"
         if mask_from_subseq(range(0), range(n)) != 0 or mask_from_subseq([i for i in range(n) if mask >> i & 1], range(n)) != mask:
             return f"mask_from_subseq against a range parent differs for mask {bin(mask)}"
     return None
